@@ -1,4 +1,5 @@
 pub mod addr;
 pub mod codec;
 pub mod ct;
+pub mod psetflow;
 pub mod sighash;
